@@ -1,6 +1,7 @@
 import Mimic.Dispatch
 import Mimic.Extracted.Session
 import Mimic.Extracted.DispatchCode
+import MimicProofs.HandlersCode
 /-!
 # C13 — The application sees exactly the statements it must handle, once, in order
 
@@ -244,5 +245,24 @@ example :
 
 example : (route order cat (some "INFORMATION_SCHEMA") (sel 0 [none, some "mysql"])).isSome = true := by decide
 example : (route order cat (some "x") (sel 0 [none, some "mysql"])) = none := by decide
+
+/-! ### COM_INIT_DB on the translated handler (`Mimic.Extracted.HandlersCode`) -/
+section handlers
+open Mimic.Extracted.HandlersCode MimicProofs.HandlersCode
+variable {S : Type} [DecidableEq S]
+
+/-- **The application observes exactly the database the client selected with COM_INIT_DB**: `handle_init_db`, translated,
+    calls the session's `use` with the payload decoded in the client character set — nothing else, exactly once — and
+    answers with one OK unless the callback raises; an undecodable name raises before the application hears anything. -/
+theorem init_db_is_code (E : Mimic.Py.Env S) (ur : S → Bool) (c : Connection S) (data : Mimic.Py.Bytes) :
+    match Mimic.Extracted.ParsersCode.parse_com_init_db E c.client_charset data with
+    | none => handle_init_db E ur c data = .error c
+    | some db =>
+      if ur db then handle_init_db E ur c data = .error { c with out := c.out ++ [Ev.session_use db] }
+      else ∃ (e : Bool) (a l w f : Nat),
+        handle_init_db E ur c data = .ok { c with out := c.out ++ [Ev.session_use db, Ev.write (ok c e a l w f) true] } :=
+  handle_init_db_spec E ur c data
+
+end handlers
 
 end MimicProps.C13
